@@ -201,6 +201,54 @@ def n_subsets(k_max):
     return sum(math.comb(9, k) for k in range(1, k_max + 1))
 
 
+HUGE = ({"years": -1, "days": 10 ** 9}, {"years": -1, "days": 999999999, "hours": 24, "microseconds": 1},
+        {"months": 40, "weeks": -142857143, "days": -3, "hours": -1, "seconds": -2, "microseconds": -3},
+        {"years": 3000000, "days": -1094999990, "minutes": 30, "milliseconds": 250},
+        {"days": 999999999, "hours": 23, "minutes": 59, "seconds": 59, "microseconds": 999999}, {"days": -999999999},
+        {"days": 300000, "seconds": 5, "microseconds": 1}, {"days": -450000, "seconds": -7, "microseconds": -999999},
+        {"years": 2, "months": 3, "days": 70000, "microseconds": 3}, {"years": 1, "days": -999999999, "microseconds": -1})
+
+
+def check_huge(acc, pendulum, kw):
+    """Lengths beyond the float-exact range of microseconds (up to timedelta's own limits): the integer-valued parts of
+    the statement - the native value, years/months as given, canonical components that sum exactly, rebuilding."""
+    y, mo = kw.get("years", 0), kw.get("months", 0)
+    rest = rest_us(kw)
+    case = {"kind": "huge", "kw": kw}
+    nkw = {k: v for k, v in kw.items() if k not in ("years", "months")}
+    nkw["days"] = nkw.get("days", 0) + y * 365 + mo * 30
+    try:
+        n = dt_.timedelta(**nkw)
+    except OverflowError:
+        acc.c["skipped_native_undefined"] += 1
+        return
+    acc.c["evaluations"] += 1
+    acc.c["transitions"] += 1
+    try:
+        d = pendulum.Duration(**kw)
+    except Exception as e:  # noqa: BLE001
+        acc.mismatch("construct", "huge/raises", case, type(e).__name__, obs.td_us(n))
+        return
+    s, a = sign(rest), abs(rest)
+    exp = {"td": obs.td_us(n), "years": y, "months": mo, "weeks": a // UNIT_US["weeks"] * s, "remaining_days": a // UNIT_US["days"] % 7 * s,
+           "hours": a // UNIT_US["hours"] % 24 * s, "minutes": a // UNIT_US["minutes"] % 60 * s,
+           "remaining_seconds": a // US % 60 * s, "microseconds": a % US * s, "eq": True}
+    got = {"td": obs.td_us(d), "years": d.years, "months": d.months, "weeks": d.weeks, "remaining_days": d.remaining_days, "hours": d.hours,
+           "minutes": d.minutes, "remaining_seconds": d.remaining_seconds, "microseconds": d.microseconds, "eq": d == n}
+    if got != exp:
+        bad = [k for k in exp if got[k] != exp[k]]
+        acc.mismatch("components", "huge", case, {k: got[k] for k in bad}, {k: exp[k] for k in bad})
+        return
+    try:
+        rb = pendulum.Duration(years=d.years, months=d.months, weeks=d.weeks, days=d.remaining_days, hours=d.hours, minutes=d.minutes,
+                               seconds=d.remaining_seconds, microseconds=d.microseconds)
+        g2 = (obs.td_us(rb), rb.years, rb.months, rb == d)
+    except Exception as e:  # noqa: BLE001
+        g2 = f"raises {type(e).__name__}"
+    if g2 != (obs.td_us(d), y, mo, True):
+        acc.mismatch("rebuild", "huge", case, g2, [obs.td_us(d), y, mo, True])
+
+
 def run_shard(shard):
     import pendulum
     acc = core.Acc(ID)
@@ -236,6 +284,9 @@ def run_shard(shard):
                    {"seconds": 1, "milliseconds": -1000}, {"milliseconds": 1, "microseconds": -1000}):
             big.append(kw)
         it = iter(big)
+        for kw in HUGE:
+            with worker.guarded(acc, "construct", {"kind": "huge", "kw": kw}):
+                check_huge(acc, pendulum, kw)
     for kw in it:
         n += 1
         if len({v < 0 for v in kw.values() if v}) == 2:
@@ -252,6 +303,9 @@ def run_shard(shard):
 
 def replay_case(case, acc):
     import pendulum
+    if case.get("kind") == "huge":
+        check_huge(acc, pendulum, case["kw"])
+        return
     check_tuple(acc, pendulum, case["kw"], absolute=case.get("abs", False))
 
 
